@@ -697,6 +697,23 @@ func (c *Ctx) c01Times() {
 	for _, in := range essential {
 		oneTime(in, false)
 	}
+	// encoded-size sweep (oracle only): area names of every length 1..127 under three shapes, each through a
+	// fresh encoder, so that the encoding takes every size from a few bytes to ~140 — in particular every
+	// size equal to a capacity of the encoder's buffer (32, 64, 128)
+	for n := 1; n <= 127; n++ {
+		z := compact_time.TZAtAreaLocation("A" + strings.Repeat("b", n-1))
+		for k, t := range []compact_time.Time{compact_time.NewTime(12, 30, 15, 0, z), compact_time.NewTime(1, 2, 3, 500000000, z),
+			compact_time.NewTimestamp(1987, 6, 5, 4, 3, 2, 123456789, z)} {
+			ok, key, expect, got, doc := c01TimeOracle(t)
+			id := c01TimeText(t)
+			c.Count("time|"+id, true)
+			c.Dist(fmt.Sprintf("time/size-sweep/shape=%d/ok=%v", k, ok))
+			if !ok {
+				c.Fail(Replay{Kind: "time", Key: key, Input: map[string]string{"time": id, "string": t.String(), "events_gob": c01TimeGob(t), "cbe_hex": hex.EncodeToString(doc)},
+					Expect: expect, Got: got})
+			}
+		}
+	}
 	// quick tier: at most 400 cases in all — the essential directed times, then up to 250 times with the rest of
 	// the directed set and random ones, 75 crafted encodings, mutations up to 375, and what the decoder delivered
 	room := func(limit int) bool { return thorough || ncases < limit }
